@@ -12,7 +12,7 @@ META = dict(
     explanation='z3x: the real closures of rxsci.math are executed on z3 terms. (1) Algebraic exactness over the reals, unbounded length: the accumulator captured from the real variance() factory is run from the symbolic state '
                 '(A/k, B - A^2/k, k) (A = sum x, B = sum x^2, k >= 1 an integer variable) on one more item and z3 shows the post-state is the same invariant for k+1 (Welford induction step), the base case from the real seed, and the real output map '
                 'gives B-A^2/k over k-1 for k >= 2 and 0 below; likewise sum and mean. (2) Whole runs of the real pipelines (sum, mean, variance, stddev, formal.variance, formal.stddev, with and without key_mapper) on n <= 5 real-valued terms, on plain observables '
-                'and per key under with_memory_store: every streaming output and the reduce output equal the textbook definition (sample n-1 / population n), variance of fewer than two items is 0, and the streaming value after the last item equals the reduce value; data-dependent branches of the closures (min / max comparisons, or any equality test on items) are forked on by the term executor and every feasible path is checked under its path condition. '
+                'and per key under with_memory_store: every streaming output and the reduce output equal the textbook definition (sample n-1 / population n), variance of fewer than two items is 0, and the streaming value after the last item equals the reduce value (the operator objects have first served a subscription aborted by an rx-level error: a retry must start afresh); data-dependent branches of the closures (min / max comparisons, or any equality test on items) are forked on by the term executor and every feasible path is checked under its path condition. '
                 '(3) Rounding at reduced width: the same real variance closure runs on IEEE terms of a small format F; for all data x1, x2 in [16, 32) with reference variance >= 1 (condition number <= 32) z3 shows |variance_F - reference| <= reference/4, the first-order '
                 'Chan-Golub-LeVeque bound n*kappa*u for a Welford/two-pass update at u = 2^-8; the textbook sum-of-squares formula violates it. (4) min / max (which branch on the data) by symbolic execution on integers.',
     bounds=dict(quick='induction: any k >= 1 (unbounded); whole runs n <= 4 terms, 2 groups; rounding: F = FPSort(5,8), reference in FPSort(8,20), n = 2', thorough='whole runs n <= 5; rounding also binary16 vs binary32, cvc5 cross-check of every query'),
@@ -152,7 +152,12 @@ class WholeRun(Result):
         run = _plain if mode == 'plain' else _mux
 
         def both():
-            return run(xs, [fac(False)]), run(xs, [fac(True)])
+            ops_s, ops_r = [fac(False)], [fac(True)]
+            if n >= 1:
+                # the same operator objects first serve a subscription that fails at the rx level after one item (retry history)
+                for o in (ops_s, ops_r):
+                    D.abort_first(rx.pipe(*o) if mode == 'plain' else rs.state.with_memory_store(list(o)), xs[:1])
+            return run(xs, ops_s), run(xs, ops_r)
         with z3x.float_slots(), z3x.sqrt_uf():
             paths, complete = z3x.explore(both, q)
         self.npaths = len(paths)
